@@ -154,6 +154,16 @@ def general(draw, max_classes=4, max_nodes=7, max_props=4, max_stmts=30, bnodes=
     return {"triples": triples, "classes": [c[1] for c in classes], "inst_prop": inst_prop}
 
 
+@st.composite
+def call_history(draw, thr, one_in=6):
+    """now and then the judged document is the answer to a LATER call on the same Shaper: 1-2 earlier calls (the same or
+    another threshold, ShExC or SHACL, to a string or to a file)"""
+    if draw(st.integers(0, one_in - 1)) != 0:
+        return None
+    return [[draw(st.sampled_from([thr, thr, 0, 0.5, 1])), draw(st.sampled_from(["ShEx", "ShEx", "Shacl"])), draw(st.sampled_from(["string", "file"]))]
+            for _ in range(draw(st.integers(1, 2)))]
+
+
 QUIRKS = ["iri_like_literals", "class_typing", "hash_props", "unicode_iris", "colon_locals", "odd_schemes", "ns_iris"]
 
 
@@ -188,7 +198,7 @@ def switches(draw, extra=("disable_exact_cardinality", "inverse_paths")):
 # ------------------------------------------------------------------ schema-consistent graphs (C03 strict domain)
 
 @st.composite
-def consistent(draw, max_classes=3, max_inst=4, max_props=3, bnode_classes=False):
+def consistent(draw, max_classes=3, max_inst=4, max_props=3, bnode_classes=False, multi_typed_ranges=False):
     """Schema first: per (class, property) a set of literal datatypes and/or one non-literal range
     (node kind x (untyped | one single-typed class)); every link predicate is unique to its domain class so that
     incoming neighbours are homogeneous too; then presence and cardinality are drawn freely per instance."""
@@ -212,7 +222,11 @@ def consistent(draw, max_classes=3, max_inst=4, max_props=3, bnode_classes=False
     shared = n_classes >= 2 and draw(st.integers(0, 2)) == 0
     if shared:
         inst[1] = inst[1] + [inst[0][0]]
-    no_range = {0, 1} if shared else set()
+    # (with disjunctions enabled - 'p @:A OR @:B' - a multi-typed neighbour is covered by every alternative, so such classes
+    # may be ranges: multi_typed_ranges)
+    # - provided both classes have members of one node kind, else an instance would see IRI and blank-node values (C03-NONLIT)
+    same_kind = shared and inst[0][0][0] == inst[1][0][0]
+    no_range = {0, 1} if (shared and not (multi_typed_ranges and same_kind)) else set()
     triples = []
     for j in range(n_classes):
         for n in inst[j]:
